@@ -790,8 +790,41 @@ def rule_crc_enforced(report, prog):
     report.floor('C14-R6', n, 4)
 
 
+def rule_frame_envelope(report, prog, rule='C14-R1'):
+    """A chipset class that overrides write_frame() puts every host frame into an envelope of its own (the Arygon readers prefix each
+    frame with '2').  The shared Chipset.command() serves such a class only if everything it reaches hands frames to the transport
+    through that override: in the callee closure of command(), rooted at each overriding class, no other function writes to
+    self.transport (a helper that writes the bare ACK frame bypasses the envelope and the reader's controller drops or misreads it)."""
+    from ..resolve import Resolver, Ctx
+    from ..callgraph import closure
+    res = Resolver(prog)
+    base = prog.cls(X + '.Chipset')
+    cmd = base.methods.get('command')
+    n = 0
+    for c in prog.subclasses(base, strict=True):
+        if 'write_frame' not in c.methods:
+            continue
+        n += 1
+        own = c.methods['write_frame'].qname
+        reach = closure(prog, res, prog.lookup(c, 'command') or cmd, Ctx(c))
+        bad = []
+        for q, (f, chain) in sorted(reach.items()):
+            if q == own:
+                continue
+            for call in ast.walk(f.node):
+                if isinstance(call, ast.Call) and norm(call.func) in ('self.transport.write', 'transport.write'):
+                    bad.append((q, f, call, chain))
+        report.check(not bad, rule, key(c.qname, 'command() writes host frames only through the write_frame() envelope of the class'),
+                     bad[0][1].loc(bad[0][2]) if bad else c.loc() if hasattr(c, 'loc') else None,
+                     '%s overrides write_frame() but command() reaches %s, which writes to the transport directly (%s): the frame leaves without the envelope'
+                     % (c.qname, bad[0][0] if bad else '', ' -> '.join(bad[0][3][-3:]) if bad else ''),
+                     detail='%d functions reachable from command()' % len(reach))
+    report.floor(rule + ' chipset classes with a frame envelope', n, 2)
+
+
 def run(report, prog, tier):
     rule_pn53x_build(report, prog)
+    rule_frame_envelope(report, prog)
     rule_pn53x_accept(report, prog)
     rule_acr122(report, prog)
     rule_rcs380(report, prog)
